@@ -1,23 +1,8 @@
 //go:build verif
 
-// Added to package analyzer at build time (`go build -overlay`); gives the harness a way to put the
-// init latch back into a chosen state between explored histories and to read it.
+// Added to package analyzer at build time (`go build -overlay`); lets the harness read the registry snapshot. (VerifReset, which
+// puts the init latch back into its initial state, is generated per build: see harness.Overlay.)
 package analyzer
-
-// VerifReset puts the cached-configuration latch into its initial state.
-func VerifReset() {
-	globalGocriticMu.Lock()
-	globalGocritic = nil
-	globalInitErrorReported = false
-	globalGocriticMu.Unlock()
-}
-
-// VerifLatch reports (configuration cached, init error reported).
-func VerifLatch() (bool, bool) {
-	globalGocriticMu.Lock()
-	defer globalGocriticMu.Unlock()
-	return globalGocritic != nil, globalInitErrorReported
-}
 
 // VerifRegistered returns the names in the registry snapshot the analyzer took at package init.
 func VerifRegistered() []string {
